@@ -753,6 +753,10 @@ func verifySeal(native *native.NativeService, header *types.Header, ctx *Context
 		return fmt.Errorf("msc Handler SyncBlockHeader, snapshot err: %v", err)
 	}
 
+	if _, ok := snap.Signers[signer]; !ok {
+		return fmt.Errorf("msc Handler SyncBlockHeader, unauthorized signer %s", signer.Hex())
+	}
+
 	if number%ctx.ExtraInfo.Epoch == 0 {
 		signers := make([]byte, len(snap.Signers)*ecommon.AddressLength)
 		for i, signer := range snap.signers() {
